@@ -46,7 +46,6 @@ def _search_blocks_for_fe(input_path: str, thread_idx: int, block_starts: List[i
                       f'[num_blocks={len(block_starts)}, first={block_starts[0]} B, last={block_starts[-1]} B]',
                       depth=2)
     header = MessageHeader()
-    message_end = 0
     num_syncs = 0
     # Data corresponding to raw values in FileIndex._RAW_DTYPE.
     raw_list: List[Tuple[int, int, int, int]] = []
@@ -91,10 +90,9 @@ def _search_blocks_for_fe(input_path: str, thread_idx: int, block_starts: List[i
             # is relatively low, so this code is in a much less hot path then the preamble sync above.
             for i in sync_matches:
                 absolute_offset = i + block_offset
-                # Don't check preambles found inside other valid messages. Generally, this didn't
-                # provide much speed up, but could prevent wasting cycles if the message size is large.
-                if absolute_offset < message_end:
-                    continue
+                # Note: preambles found inside other valid messages are checked too. Whether a candidate lies inside
+                # an accepted message can only be decided once the results of all threads are merged (this thread may
+                # have started in the middle of a message).
 
                 try:
                     # Check if the message has a valid length and CRC. This could probably be optimized.
@@ -117,7 +115,6 @@ def _search_blocks_for_fe(input_path: str, thread_idx: int, block_starts: List[i
                             pass
                     # Convert the Timestamp to an integer.
                     p1_time_raw = Timestamp._INVALID if math.isnan(p1_time.seconds) else min(int(p1_time.seconds), Timestamp._INVALID)
-                    message_end = absolute_offset + header.get_message_size()
                     if _logger.isEnabledFor(logging.getTraceLevel(depth=3)):
                         _logger.trace(f'Thread {thread_idx}, block {i}: message={header.message_type.to_string()}, '
                                       f'file_offset={absolute_offset} B, p1_time={p1_time}',
@@ -201,20 +198,20 @@ def fast_generate_index(
     else:
         index_raw = _search_blocks_for_fe(*args[0])
 
-    # Some messages may encapsulate other complete FE messages. Normally, these
-    # are ignored. However, if a message straddles one of the processing blocks,
-    # it can end up indexed. Look at the offsets and sizes of the detected
-    # messages, and filter out messages that fall within previous messages.
-    #
-    # Find the end offsets of the messages.
+    # Some messages may encapsulate other complete FE messages, and arbitrary data may contain byte sequences that
+    # happen to form a valid message. A sequential scan skips everything inside a message it has accepted, so keep an
+    # entry only if it starts at or after the end of the last entry that was kept.
     total_entries = len(index_raw)
     if total_entries > 0:
-        expected_msg_ends = index_raw[:]['offset'] + index_raw[:]['size']
-        # Propagate forward the largest endpoint found to handle multiple encapsulated messages.
-        expected_msg_ends = np.maximum.accumulate(expected_msg_ends)
-        # Find the messages that start after the previous message.
-        non_overlapped_idx = np.concatenate([[True], index_raw[1:]['offset'] >= expected_msg_ends[:-1]])
-        _logger.debug(f'Dropped {np.sum(~non_overlapped_idx)} wrapped messages.')
+        offsets = index_raw['offset'].tolist()
+        sizes = index_raw['size'].tolist()
+        non_overlapped_idx = np.zeros(total_entries, dtype=bool)
+        message_end = 0
+        for i in range(total_entries):
+            if offsets[i] >= message_end:
+                non_overlapped_idx[i] = True
+                message_end = offsets[i] + sizes[i]
+        _logger.debug(f'Dropped {total_entries - int(np.sum(non_overlapped_idx))} wrapped messages.')
         index_raw = index_raw[non_overlapped_idx]
 
     _logger.debug(f'FE messages found: {total_entries}')
